@@ -72,7 +72,7 @@ func runC03(c *Ctx) {
 	ruleCacheShape(c, "R3.4")
 	ruleTransitionSwap(c, "R3.5")
 	ruleValidateBeforeStore(c, "R3.6") // the gate in front of the share swap refuses nothing the DKG layer agreed on
-	ruleVaultSwap(c, "R3.5") // the polynomial partials are checked against is swapped together with the group and share
+	ruleVaultSwap(c, "R3.5")           // the polynomial partials are checked against is swapped together with the group and share
 }
 
 // ruleGate checks the conditions dominating the injection of a remote partial; withClockOnly restricts to R4.5.
@@ -1110,7 +1110,9 @@ func ruleStopCancelsFirst(c *Ctx, rule string) {
 				return
 			}
 			f := calledFunc(g)
-			if f == nil || len(callsIn(f, func(ci ssa.CallInstruction) bool { return ci.Common().IsInvoke() && ci.Common().Method.Name() == "PartialBeacon" })) == 0 {
+			if f == nil || len(callsIn(f, func(ci ssa.CallInstruction) bool {
+				return ci.Common().IsInvoke() && ci.Common().Method.Name() == "PartialBeacon"
+			})) == 0 {
 				return
 			}
 			n++
